@@ -11,6 +11,8 @@ Decides:
           `mutable` before succeeding;
   R4 (K8) resolve_return accepts only MemoryReference | Identifier, looks the region up, compares the type and
           marks the slot mutable.
+          A MemoryReference or Immediate argument is accepted for ExternParameterType::Scalar only (decision read from
+          the match in the arm or from the Option/Result helper it calls on `data_type`).
 Not decided: the full argument x parameter truth table."""
 from qv.engine import callee_path, fn_expr_operand, walk_expr
 from qv.props.common import in_span, aggregates, require_fn
@@ -175,6 +177,65 @@ def run(ctx):
                         res.site(key, True, {"verdict": "ok" if ok else "VIOLATION"})
                         if not ok:
                             res.find(key, rs.loc(arm["sp"]), "the %s arm of resolve does not look the region up in the declarations" % v, "an undeclared region is accepted")
+                    if v in ("MemoryReference", "Immediate"):
+                        # the slot kinds a scalar argument is accepted for: exactly ExternParameterType::Scalar.  The
+                        # decision is read from the match on the slot's type in this arm, or from the match inside a
+                        # helper method called on `data_type` in this arm.
+                        key = "K8|scalar-argument-slot-kinds|%s" % v
+                        EPT = EC + "::ExternParameterType"
+                        allv = {x["n"] for x in db.adts[EPT]["variants"]}
+                        accepted = None
+                        how = None
+                        inner = [mm for mm in k2.match_on(db, rs, EPT) if in_span(mm["sp"], arm["body_sp"])]
+                        if len(inner) == 1:
+                            acc = set()
+                            for a2 in inner[0]["arms"]:
+                                vs2, catch2 = k2.arm_variants(a2, EPT)
+                                if catch2:
+                                    vs2 = allv - {x for a3 in inner[0]["arms"] for x in k2.arm_variants(a3, EPT)[0]}
+                                if "InvalidVectorArgument" not in errors_in(db, rs, a2["body_sp"]):
+                                    acc |= vs2
+                            accepted, how = acc, "match in the arm"
+                        elif not inner:
+                            helpers = []
+                            for g in [rs] + db.closures_of(rs):
+                                for bb, t, c in g.calls():
+                                    if c and c.get("local") and in_span(t["sp"], arm["body_sp"]) and t["args"]:
+                                        recv = fn_expr_operand(g, t["args"][0])
+                                        hit = []
+                                        walk_expr(recv, lambda n: hit.append(1) if n[0] == "field" and n[2] == "data_type" else None)
+                                        if hit:
+                                            try:
+                                                helpers.append(db.fn(callee_path(c)))
+                                            except KeyError:
+                                                pass
+                            helpers = [h for h in helpers if h is not None and k2.match_on(db, h, EPT)]
+                            if len(helpers) == 1:
+                                h = helpers[0]
+                                hm = k2.match_on(db, h, EPT)[0]
+                                acc = set()
+                                decided = True
+                                for a2 in hm["arms"]:
+                                    vs2, catch2 = k2.arm_variants(a2, EPT)
+                                    if catch2:
+                                        vs2 = allv - {x for a3 in hm["arms"] for x in k2.arm_variants(a3, EPT)[0]}
+                                    made = {s2["rv"]["a"]["variant"] for bb, s2 in aggregates(h) if in_span(s2["sp"], a2["body_sp"]) and s2["rv"]["a"]["path"].endswith(("option::Option", "result::Result"))}
+                                    if made and made <= {"Some", "Ok"}:
+                                        acc |= vs2
+                                    elif made and made <= {"None", "Err"}:
+                                        pass
+                                    else:
+                                        decided = False
+                                if decided:
+                                    accepted, how = acc, "match in helper " + h.path.rsplit("::", 1)[-1]
+                        if accepted is None:
+                            res.site(key, False, {"verdict": "undecided: the slot-kind decision is neither a match in the arm nor a recognised Option/Result helper"})
+                            res.undecided.append("scalar-argument-slot-kinds|%s: decision shape not recognised" % v)
+                        else:
+                            ok = accepted == {"Scalar"}
+                            res.site(key, True, {"accepted_slot_kinds": sorted(accepted), "decided_by": how, "verdict": "ok" if ok else "VIOLATION"})
+                            if not ok:
+                                res.find(key, rs.loc(arm["sp"]), "a %s argument is accepted for slot kinds %s (decided by the %s); only a scalar slot may take it" % (v, sorted(accepted), how), "`CALL f xs[1]` resolves for `(xs : INTEGER[])`")
                     if v == "Immediate":
                         key = "K7|immediate-tests-mutable"
                         reads_mut = False
